@@ -1,0 +1,23 @@
+//go:build verif
+
+package updates
+
+import "github.com/ovn-org/libovsdb/ovsdb"
+
+// Verification-only re-exports of unexported functions (build tag verif).
+
+func VerifDifference(a, b interface{}) (interface{}, bool) { return difference(a, b) }
+
+func VerifApplyDifference(v, d interface{}) (interface{}, bool) { return applyDifference(v, d) }
+
+func VerifMergeDifference(o, a, b interface{}) (interface{}, bool) {
+	return mergeDifference(o, a, b)
+}
+
+func VerifMergeModifyRow(ts *ovsdb.TableSchema, o, a, b *ovsdb.Row) *ovsdb.Row {
+	return mergeModifyRow(ts, o, a, b)
+}
+
+func VerifMutate(current interface{}, mutator ovsdb.Mutator, value interface{}) (interface{}, interface{}) {
+	return mutate(current, mutator, value)
+}
